@@ -22,9 +22,9 @@ import vlib
 META = {
     "category": "model_checking",
     "text": "A TLA+ reference operator for RFC 7396 (checked by TLC against a literal transcription of the "
-            "RFC pseudocode, the RFC's laws and its 15 appendix examples on 143 377 enumerated target/patch "
-            "pairs) judges recorded I/O of the real applyMergePatch on every pair of an enumerated domain "
-            "(15 143 pairs quick, 143 377 thorough) and on random deeper "
+            "RFC pseudocode, the RFC's laws and its 15 appendix examples on every enumerated target/patch "
+            "pair: 14 953 quick, 342 595 thorough) judges recorded I/O of the real applyMergePatch on every pair "
+            "of an enumerated domain (14 953 pairs quick, 143 377 thorough) and on random deeper "
             "documents, and judges mergeConfigPatch end to end on real configurations: accepted iff the RFC "
             "result decodes strictly, the candidate equals it, and it only uses known members.",
     "design_ref": "DESIGN.md section 4, C36",
@@ -57,7 +57,7 @@ def classify(target, patch):
 
 
 def run(ctx):
-    r = ctx.tlc("MergePatch", ctx.pick("MergePatch.cfg", "MergePatch_rich.cfg"), timeout=1200)
+    r = ctx.tlc("MergePatch", ctx.pick("MergePatch_small.cfg", "MergePatch_rich.cfg"), timeout=1200)
     pairs = r.distinct
     ctx.log("MergePatch.tla: %d target/patch pairs: declarative == RFC pseudocode, laws, RFC appendix A" % pairs)
     for cfg in ("MergePatch_mutant1.cfg", "MergePatch_mutant2.cfg"):
@@ -75,7 +75,7 @@ def run(ctx):
         json.dump(vecs, fh)
     ctx.log("exported %d vectors" % len(vecs))
     ctx.harness("./c36", "TestVectors|TestCfgDump",
-                env={"VERIF_N": ctx.pick(3000, 30000), "VERIF_CFG_N": ctx.pick(25, 150)}, timeout=1200)
+                env={"VERIF_N": ctx.pick(1500, 30000), "VERIF_CFG_N": ctx.pick(15, 150)}, timeout=1200)
     st = json.load(open(ctx.path("stats.json")))
     ctx.log("harness: %d vectors + %d random documents (+%d chain steps) through applyMergePatch"
             % (st["vectors"], st["random"], st["chain_steps"]))
@@ -154,7 +154,7 @@ def run(ctx):
         "exhaustive": False,
     }
     return ctx.finish("model_checking", cov, [
-        "documents of depth <= 2 over keys {a,b} are enumerated: self-check with 5 (thorough 6) leaves, replay on the "
-        "real code with 3 (thorough 5) leaves; deeper documents are seeded random",
+        "documents of depth <= 2 over keys {a,b} are enumerated: self-check with 3 (thorough 6) leaf kinds, replay on "
+        "the real code with 3 (thorough 5) leaf kinds; deeper documents are seeded random",
         "encoding/json's decoding of the patch text and yaml.v3's strict decoding are the real ones (not modelled)",
     ])
